@@ -186,18 +186,28 @@ func check(e *Env, s *Spec) (int, error) {
 	if s.OnDeath != nil {
 		opts.OnDeath = s.OnDeath(e)
 	}
-	agg, err := e.Fan(opts)
-	if err != nil {
-		return 2, err
+	// Trouble in one variant (a worker that died or hung) must not hide what another variant can
+	// report exactly: all variants run, and trouble decides only if nobody reported a failure.
+	agg, fanErr := e.Fan(opts)
+	if agg == nil {
+		return 2, fanErr
 	}
 	for _, v := range s.Also {
 		o2 := opts
 		o2.Variant = v
 		a2, err := e.Fan(o2)
-		if err != nil {
-			return 2, err
+		if err != nil && fanErr == nil {
+			fanErr = err
 		}
-		agg.merge(a2, v)
+		if a2 != nil {
+			agg.merge(a2, v)
+		}
+	}
+	if fanErr != nil && len(agg.Fails) == 0 {
+		return 2, fanErr
+	}
+	if fanErr != nil {
+		e.logf("%s: trouble in one variant (%v); the failures reported by the others are processed first", s.ID, fanErr)
 	}
 	e.logf("%s: %d/%d units, %d evaluations, %d simulated steps, %d failure reports", s.ID, agg.Units, total, agg.Evals, agg.Steps, len(agg.Fails))
 	cov := map[string]interface{}{}
@@ -384,8 +394,10 @@ func (e *Env) processFailures(s *Spec, agg *Agg, known *Known) (*Outcome, error)
 			keep := filepath.Join(e.OutRoot(), "replays", fmt.Sprintf("%s-nonreproducing-%d.json", s.ID, f.Run))
 			mkdir(keep)
 			writeJSON(keep, doc)
-			return nil, troublef("failure %q of unit %d did not reproduce in a fresh process (got %v, exit %d, trouble %q): determinism failure of the machinery; case kept at %s\n%s",
-				f.Key(), f.Run, got, rr.Exit, rr.Trouble, keep, tail(rr.Stderr, 2000))
+			// the other failures of the run are still processed; if none of them reproduces either, the
+			// run ends in exit 2 below
+			unreproduced = append(unreproduced, fmt.Sprintf("%s (unit %d; a fresh process observed %v, exit %d, trouble %q; case kept at %s)", f.Key(), f.Run, got, rr.Exit, rr.Trouble, keep))
+			continue
 		}
 		if what, ok := known.match(s.ID, f); ok {
 			out.Known++
@@ -413,9 +425,9 @@ func (e *Env) processFailures(s *Spec, agg *Agg, known *Known) (*Outcome, error)
 	if len(unreproduced) > 0 {
 		if out.Violations == 0 {
 			// a detector report that three fresh processes could not repeat is neither believed nor dropped
-			return nil, troublef("race reports that did not reproduce in fresh processes: %v (cases kept under %s)", unreproduced, filepath.Join(e.OutRoot(), "replays"))
+			return nil, troublef("failures that did not reproduce in fresh processes (neither alone nor with their process history): %v", unreproduced)
 		}
-		out.Lines = append(out.Lines, fmt.Sprintf("  note: further race reports did not reproduce in fresh processes: %v", unreproduced))
+		out.Lines = append(out.Lines, fmt.Sprintf("  note: further failure reports did not reproduce in fresh processes: %v", unreproduced))
 	}
 	return out, nil
 }
